@@ -10,17 +10,29 @@ CFG = dict(
          "duplicated, flipped, swapped, truncated terms; i, j shifted by +-1; neighbouring roots; swapped roots; empty "
          "proof; i=0) through the Go verifiers and the model verifiers; htree.BuildWith/InclusionProof/VerifyInclusion "
          "for widths 0..65 incl. stale level arrays, Leaf/Width shifted, negative and zero; SHA-256 vectors. "
+         "Each history is also replayed (Append d / ResetSize k) on the digest-log model coq/Merkle/AHT.v: the digest log "
+         "as nodeAt returns it (through the cache; hook VerifDigests) must equal the model's log below dLogSize entry by "
+         "entry, and RootAt(1..n), every (n<=17; else sampled) InclusionProof(i,j) and ConsistencyProof(i,j) are compared "
+         "with the model's, encoded as indices into that log; nodesUpto/nodesUntil/levelsAt compared for n = 1..70, "
+         "2^k and 2^k+-1 up to 2^56 and random n. "
          "Non-trivial: histories of size >= 3 that is not a power of two, proofs with j >= 3, every verifier case; "
          "distinct by full case content. Falsifier: a Go verifier acceptance whose claim is false for the harness' "
-         "own leaves.",
+         "own leaves; an inexact consistency acceptance at the HONEST proof length (excluded by theorem "
+         "C08_consistency_sound_exact_honest_length) is reported apart from the known finding; digest-log entry count "
+         "against nodesUpto(size).",
     trusted_base=COMMON_TB + [
         "executable SHA-256 of coq/Merkle/Sha256.v uses Coq's primitive Uint63 integers under vm_compute (only to run "
         "the model; validated against crypto/sha256 by the CSha cases); theorems are about an abstract hash H",
         "hash assumptions are in the statements: every soundness theorem concludes `claim \\/ Collision H`",
         "modelled: ahtree.VerifyInclusion/VerifyLastInclusion/VerifyConsistency, htree.VerifyInclusion (transliterated), "
-        "reference tree mk_tree (RFC 6962 shape) and audit path; NOT modelled (tie only): the AHtree digest-log "
-        "addressing (nodesUpto/levelsAt/Append loop), caches, the three appendable logs, htree level arrays, "
-        "consistency-proof generation",
+        "reference tree mk_tree (RFC 6962 shape) and audit path; the AHtree digest log (coq/Merkle/AHT.v: nodesUpto, "
+        "nodesUntil, levelsAt, node(n,l), the Append w,l,k loop, rootAt, highestNode, inclusionProof, consistencyProof, "
+        "ResetSize rewinding the sizes over logs that keep their stale tails); uint64 arithmetic modelled in N without "
+        "wrap-around (agrees for sizes < 2^58; at j = 0 the model returns Panic where Go divides by 1<<64); "
+        "NOT modelled (tie only): the digest/payload caches (read-through; the tie reads the log through them), the "
+        "three appendable files and the commit log (C17/C03), Sync/Close/Open, htree level arrays and htree.InclusionProof",
+        "hook /repo/embedded/ahtree/verif_hooks_c08.go (build tag verif, add-only): VerifNodesUpto/VerifNodesUntil/"
+        "VerifLevelsAt, VerifDigests",
     ],
     assumptions=["proof terms are 32-byte values (Go type [sha256.Size]byte)"],
 )
